@@ -70,6 +70,7 @@ type monitor struct {
 	vapiErrors    map[string]int
 	vcSubmitted   int
 	dutyStoreErrs int
+	resignRefused, resignAccepted, resignOther int
 }
 
 func newMonitor(w *world) *monitor {
@@ -516,6 +517,19 @@ func (m *monitor) thresholdReached(nodeIdx int, duty core.Duty, set map[core.Pub
 func (m *monitor) vapiResult(nodeIdx int, what string, err error) {
 	m.mu.Lock()
 	defer m.mu.Unlock()
+	if len(what) > 7 && what[:7] == "resign-" {
+		switch {
+		case isMismatch(err):
+			m.resignRefused++
+			m.noteLocked("vc node=%d %s: refused by the node (mismatching partial signed data)", nodeIdx, what)
+		case err == nil:
+			m.resignAccepted++ // nothing stored for the first submission (rejected or expired), or identical data
+		default:
+			m.resignOther++
+		}
+
+		return
+	}
 	if err == nil {
 		m.vcSubmitted++
 		return
